@@ -99,11 +99,16 @@ class Channel(AsyncIterable, Generic[ST]):
         self._consumer_buffers[sentinel] = buffer = deque()  # type: Deque[ST]
         try:
             while True:
-                while buffer:
-                    yield buffer.popleft()
-                if self._closed:
+                if buffer or self._closed:
+                    # this step completes without waiting for a message,
+                    # but still allow other activities to run
+                    await postpone()
+                else:
+                    while not buffer and not self._closed:
+                        await self._notification
+                if not buffer:
                     break
-                await self._notification
+                yield buffer.popleft()
         finally:
             del self._consumer_buffers[sentinel]
 
@@ -186,6 +191,8 @@ class Queue(AsyncIterable, Generic[ST]):
             try:
                 result = await self
             except StreamClosed:
+                # the iteration ends without waiting, but still allow other activities to run
+                await postpone()
                 break
             else:
                 yield result
